@@ -56,14 +56,35 @@ theorem calendar_parts_exact (o : Oracle) (y m d h mi s ns : Int) (hv : Time.Val
   rw [hp.1, hc]
   exact ⟨rfl, rfl, rfl, by rw [hp.2.1], by rw [hp.2.2.1], by rw [hp.2.2.2]⟩
 
+/-- … and conversely, for EVERY instant `t` (no hypothesis): what `year`, `month`, `day` return is a date of the calendar,
+    `hour`, `minute`, `second` are a time of day, and `t` lies in exactly that second of that day -/
+theorem calendar_parts_total (o : Oracle) (t : Int) :
+    ∃ y m d h mi s, Time.ValidDate y m d ∧ (0 ≤ h ∧ h ≤ 23) ∧ (0 ≤ mi ∧ mi ≤ 59) ∧ (0 ≤ s ∧ s ≤ 59) ∧
+      Time.secsOf t = Time.daysFromCivil y m d * 86400 + h * 3600 + mi * 60 + s ∧
+      applyUn o .year (.dateTime t) = .ok (.int y) ∧ applyUn o .month (.dateTime t) = .ok (.int m) ∧
+      applyUn o .day (.dateTime t) = .ok (.int d) ∧ applyUn o .hour (.dateTime t) = .ok (.int h) ∧
+      applyUn o .minute (.dateTime t) = .ok (.int mi) ∧ applyUn o .second (.dateTime t) = .ok (.int s) := by
+  have hc := Time.civil_valid_and_inverse (Time.secsOf t / 86400)
+  refine ⟨Time.year t, Time.month t, Time.day t, Time.hour t, Time.minute t, Time.second t, hc.1, ?_, ?_, ?_, ?_,
+    rfl, rfl, rfl, rfl, rfl, rfl⟩
+  · unfold Time.hour; omega
+  · unfold Time.minute; omega
+  · unfold Time.second; omega
+  · have h2 := hc.2
+    unfold Time.year Time.month Time.day
+    rw [h2]; unfold Time.hour Time.minute Time.second; omega
+
 /-- the day count the previous theorem refers to IS the calendar: day 0 is 1970-01-01 and consecutive dates have
-    consecutive numbers (next day of the month, first of the next month, first of the next year) -/
+    consecutive numbers (next day of the month, first of the next month, first of the next year); every integer is the
+    number of some date -/
 theorem day_count_is_consecutive :
     Time.daysFromCivil 1970 1 1 = 0 ∧
     (∀ y m d, Time.daysFromCivil y m (d + 1) = Time.daysFromCivil y m d + 1) ∧
     (∀ y m, 1 ≤ m ∧ m ≤ 11 → Time.daysFromCivil y (m + 1) 1 = Time.daysFromCivil y m (Time.lastDay y m) + 1) ∧
-    (∀ y, Time.daysFromCivil (y + 1) 1 1 = Time.daysFromCivil y 12 31 + 1) :=
-  ⟨Time.daysFromCivil_epoch, Time.daysFromCivil_next_day, Time.daysFromCivil_next_month, Time.daysFromCivil_next_year⟩
+    (∀ y, Time.daysFromCivil (y + 1) 1 1 = Time.daysFromCivil y 12 31 + 1) ∧
+    (∀ n, ∃ y m d, Time.ValidDate y m d ∧ Time.daysFromCivil y m d = n) :=
+  ⟨Time.daysFromCivil_epoch, Time.daysFromCivil_next_day, Time.daysFromCivil_next_month, Time.daysFromCivil_next_year,
+   Time.exists_date⟩
 
 /-! composition: a strict node's result is the operator applied to its children's results, evaluated left
     to right with the state threaded; an error in a child is the node's result -/
